@@ -44,9 +44,14 @@ Proof. exact numeric_password_followed_by_a_word_survives_refuted. Qed.
 Theorem C07_hash_after_a_captured_reserved_word_survives_refuted :
   exists line, rmi line = Done (line, []) /\ line = lit "enable secret level 15 5 $1$abcd$0rN7R8PKwC30AsCGA77vy.".
 Proof. exact hash_after_reserved_word_capture_survives_refuted. Qed.
+Theorem C07_first_of_two_communities_on_a_line_survives_refuted :
+  exists out lk, rmi (lit "snmp-server community FIRSTsecret RO ; snmp-server community SECONDsecret RW") = Done (out, lk) /\
+                 out = lit "snmp-server community FIRSTsecret RO ; snmp-server community netconanRemoved0 RW".
+Proof. exact first_of_two_communities_survives_refuted. Qed.
 
 Print Assumptions C07_numeric_password_before_a_word_survives_refuted.
 Print Assumptions C07_hash_after_a_captured_reserved_word_survives_refuted.
 Print Assumptions C07_allocator_outputs_independent_of_secret_content.
 Print Assumptions C07_fresh_replacement_depends_only_on_class_and_counter.
 Print Assumptions C07_generated_line_patterns_consume_text.
+Print Assumptions C07_first_of_two_communities_on_a_line_survives_refuted.
